@@ -875,6 +875,14 @@ pub struct Alphabet {
     pub max_creations: usize,
     pub names: &'static [&'static str],
     pub values: &'static [&'static str],
+    /// character-data operations (C16 / C15): argument strings; empty = off
+    pub chardata: &'static [&'static str],
+    /// offsets / counts beyond the length that are tried (len+1 ..= len+extra) plus usize::MAX
+    pub chardata_extra: usize,
+    /// false: no replace_data / substring_data (C15: a replace is a delete followed by an insert)
+    pub chardata_full: bool,
+    /// only `append_child(attached element, detached node)` instead of the full structural product
+    pub attach_only: bool,
 }
 
 pub fn count_creations(h: &[Op]) -> usize {
@@ -936,6 +944,22 @@ impl Live {
                 }
             }
         }
+        if a.attach_only {
+            for &p in &receivers {
+                if kind_of(&self.pool[p]) != Kind::Element || self.pool[p].parent_node().is_none() {
+                    continue;
+                }
+                for c in 0..n {
+                    let cn = &self.pool[c];
+                    let detached = !self.is_foreign[c]
+                        && !matches!(kind_of(cn), Kind::Document | Kind::Attr | Kind::DocType)
+                        && cn.parent_node().is_none();
+                    if detached {
+                        ops.push(Op::Append(p, c));
+                    }
+                }
+            }
+        }
         if a.creations && count_creations(history) < a.max_creations {
             for name in a.names {
                 ops.push(Op::CreateElement(name.to_string()));
@@ -982,6 +1006,37 @@ impl Live {
                 }
             }
         }
+        if !a.chardata.is_empty() {
+            for h in 0..n {
+                if self.is_foreign[h] || !matches!(kind_of(&self.pool[h]), Kind::Text | Kind::Comment | Kind::CData) {
+                    continue;
+                }
+                let len = Live::value_of(&self.pool[h]).chars().count();
+                let mut nums: Vec<usize> = (0..=len + a.chardata_extra).collect();
+                nums.push(usize::MAX);
+                for &o in &nums {
+                    for &c in &nums {
+                        ops.push(Op::DeleteData(h, o, c));
+                        if a.chardata_full {
+                            ops.push(Op::SubstringData(h, o, c));
+                            for s in a.chardata {
+                                ops.push(Op::ReplaceData(h, o, c, s.to_string()));
+                            }
+                        }
+                    }
+                    for s in a.chardata {
+                        ops.push(Op::InsertData(h, o, s.to_string()));
+                    }
+                    if matches!(kind_of(&self.pool[h]), Kind::Text | Kind::CData) && !a.split {
+                        ops.push(Op::SplitText(h, o));
+                    }
+                }
+                for s in a.chardata {
+                    ops.push(Op::AppendData(h, s.to_string()));
+                    ops.push(Op::SetData(h, s.to_string()));
+                }
+            }
+        }
         if a.set_value {
             for h in 0..n {
                 if self.can_receive(h) {
@@ -1008,6 +1063,8 @@ pub struct Monitors {
     pub tree: bool,  // C12
     pub spec: bool,  // C13
     pub order: bool, // C14
+    pub chardata: bool, // C16: length() agrees with data() on every character-data node
+    pub serial: bool, // C15: after a successful call the document re-parses to what the DOM reports
 }
 
 pub struct DomBfs {
@@ -1138,7 +1195,44 @@ fn arg_features(l: &Live, op: &Op) -> String {
         Op::CreatePI(t, d) => format!("{}:{}", str_class(t), str_class(d)),
         Op::CreateText(s) | Op::CreateComment(s) | Op::CreateCData(s) => str_class(s),
         Op::RemoveAttribute(..) | Op::RemoveNamedItem(..) => "name".into(),
+        Op::SubstringData(t, o, c) | Op::DeleteData(t, o, c) | Op::ReplaceData(t, o, c, _) => {
+            let len = Live::value_of(&l.pool[*t]).chars().count();
+            format!("{}:{}:{}", k(t), off_class(*o, len), count_class(*o, *c, len))
+        }
+        Op::InsertData(t, o, _) => {
+            let len = Live::value_of(&l.pool[*t]).chars().count();
+            format!("{}:{}", k(t), off_class(*o, len))
+        }
+        Op::AppendData(t, s) | Op::SetData(t, s) => format!("{}:{}", k(t), str_class(s)),
         _ => String::new(),
+    }
+}
+
+pub fn off_class(o: usize, len: usize) -> &'static str {
+    if o == usize::MAX {
+        "max"
+    } else if o > len {
+        "beyond"
+    } else if o == len {
+        "end"
+    } else if o == 0 {
+        "start"
+    } else {
+        "inside"
+    }
+}
+
+pub fn count_class(o: usize, c: usize, len: usize) -> &'static str {
+    if c == usize::MAX {
+        "max"
+    } else if o <= len && c > len - o {
+        "past-end"
+    } else if o <= len && c == len - o {
+        "to-end"
+    } else if c == 0 {
+        "zero"
+    } else {
+        "within"
     }
 }
 
@@ -1217,6 +1311,23 @@ impl Space for DomBfs {
         } else {
             Default::default()
         };
+        // C15: a document that does not survive print -> parse stays that way; only the transition
+        // that makes it so is reported, and such a state is not expanded
+        if self.monitors.serial {
+            if let Some((kind, exp, obsd)) = crate::checks::c15::serial_monitor(&live) {
+                if history.is_empty() {
+                    sink.finding(Finding {
+                        sig: format!("{}/initial-state", kind),
+                        what: format!("the serialization of a freshly parsed document {}", kind),
+                        case: self.case_text(*doc, history, None),
+                        expected: exp,
+                        observed: obsd,
+                    });
+                }
+                sink.count("states-already-broken", 1);
+                return;
+            }
+        }
         if self.monitors.tree && history.is_empty() {
             let mut seen = std::collections::BTreeSet::new();
             for (kind, detail) in &base_nav {
@@ -1303,6 +1414,48 @@ impl Space for DomBfs {
                     }),
                 }
             }
+            if self.monitors.chardata && !panicked {
+                for (i, n) in live.pool.iter().enumerate() {
+                    if live.is_foreign[i] {
+                        continue;
+                    }
+                    let r = guard(|| match n {
+                        XmlNode::Text(x) => Some((x.length(), x.data())),
+                        XmlNode::Comment(x) => Some((x.length(), x.data())),
+                        XmlNode::CData(x) => Some((x.length(), x.data())),
+                        _ => None,
+                    });
+                    let bad = match r {
+                        Ok(Some((len, Ok(d)))) if len != d.chars().count() => Some(format!("length() = {} but data() = {:?} has {} characters", len, d, d.chars().count())),
+                        Ok(Some((_, Err(e)))) => Some(format!("data() failed: {:?}", e)),
+                        Err(m) => Some(format!("panic: {}", m)),
+                        _ => None,
+                    };
+                    if let Some(b) = bad {
+                        sink.finding(Finding {
+                            sig: format!("length-disagrees/{}/after:{}", kind_of(n).tag(), op.method()),
+                            what: "length() does not count the characters of data()".into(),
+                            case: self.case_text(*doc, history, Some(&op)),
+                            expected: "length() == data().chars().count()".into(),
+                            observed: b,
+                        });
+                    }
+                }
+            }
+            let mut broken = false;
+            if self.monitors.serial && !panicked && rep.succeeded && rep.changed {
+                sink.count("validated", 1);
+                if let Some((kind, exp, obsd)) = crate::checks::c15::serial_monitor(&live) {
+                    broken = true;
+                    sink.finding(Finding {
+                        sig: format!("{}/{}/after:{}", kind, crate::checks::c15::op_features(&live, &op), op.method()),
+                        what: format!("after a successful {} the serialization {}", op.method(), kind),
+                        case: self.case_text(*doc, history, Some(&op)),
+                        expected: exp,
+                        observed: obsd,
+                    });
+                }
+            }
             if self.monitors.order && !panicked && rep.changed {
                 sink.count("validated", 1);
                 for f in crate::checks::c14::order_monitors(&live, self.order_queries) {
@@ -1318,7 +1471,7 @@ impl Space for DomBfs {
                     });
                 }
             }
-            if self.expand && rep.changed && !panicked {
+            if self.expand && rep.changed && !panicked && !broken {
                 // C13 explores only states where model and implementation still agree
                 if !self.monitors.spec || live.model.is_some() {
                     sink.successor(format!("{}|{:016x}", doc, crate::engine::proto::fnv64(&live.state_key())), encode_state(*doc, &h2));
